@@ -5,8 +5,8 @@ MC_Lazy*.cfg: TLC checks LazyEqEager / valid file / unedited sheets kept / edits
 intended design over all histories within the operation bounds, and must *refute* the three other designs
 (relationship parts of raw sheets under their original names; tables of loaded sheets numbered from 1; chart
 caches read from the referenced sheet's cells) - these are the known findings C11-KF1..3.
-Behaviours of the specification (all paths of depth 2 over four file shapes, TLC-simulated longer histories) are
-run by harness/src/bin/lazy.rs on generated files, on generated files whose sheet parts are not numbered in
+Behaviours of the specification (paths of depth 2 - thorough: 3 - over four file shapes, enumerated by TLC and
+sampled with the run's seed when there are more than the tier's cap; TLC-simulated longer histories) are run by harness/src/bin/lazy.rs on generated files, on generated files whose sheet parts are not numbered in
 workbook order (re-ordered by this module), and - re-addressed by position - on multi-sheet corpus files; a
 lazily opened workbook and its eagerly opened twin get the same history.  pydec/lazy_view.py decodes every written
 package; spec/Trace_Lazy.tla judges every step.
@@ -260,7 +260,7 @@ def gen_cases(chk, tmp):
     sims, seen = [], set()
     for rp in rs.replays:
         k = json.dumps(rp, sort_keys=True)
-        if k not in seen:
+        if k not in seen and len(sims) < 2 * nsim:
             seen.add(k)
             sims.append(rp)
             cases.append({"src": gen_src_of_shape(rp[0]["orig"]), "steps": finish_history(rp[1:]), "kind": "tlc-sim"})
@@ -279,7 +279,11 @@ def gen_cases(chk, tmp):
         names = [s["name"] for s in v["sheets"]]
         allrefs = set(x for s in v["sheets"] for x in s["chartrefs"])
         src = {"kind": "file", "name": f}
-        picked = rng.sample(short, min(per_file, len(short))) + [rp[1:] for rp in rng.sample(sims, min(per_file // 3, len(sims)))]
+        size = os.path.getsize(os.path.join(CORPUS, f))
+        quota = per_file if size < 100_000 else max(12, per_file // 3) if size < 500_000 else max(8, per_file // 10)
+        if quick:
+            quota = per_file
+        picked = rng.sample(short, min(quota, len(short))) + [rp[1:] for rp in rng.sample(sims, min(quota // 3, len(sims)))]
         seen_f = set()
         for h in picked:
             st = adapt(h, names, allrefs, info[f]["wb_ok"])
@@ -415,8 +419,9 @@ def run(chk):
                 "file) plus a history of read_sheet / read_sheet_by_name / get_sheet_mut / get_sheet_by_name_mut / "
                 "read_sheet_collection / get_sheet_collection_mut, edits (text, styled text, comment, table), new_sheet, "
                 "remove_sheet, set_sheet_name, workbook-level insert/remove rows and saves, run on a lazily opened "
-                "workbook and on its eagerly opened twin; cases = every depth-2 path of the bounded model on four file "
-                "shapes, TLC-simulated histories of 9 operations, the same histories re-addressed by position on corpus "
+                "workbook and on its eagerly opened twin; cases = the depth-2 (thorough: depth-3) paths of the bounded "
+                "model on four file shapes (a seeded sample when TLC enumerates more than the tier's cap, see "
+                "coverage.cases), TLC-simulated histories of 9 operations, the same histories re-addressed by position on corpus "
                 "files, single-sheet materialise/remove sweeps, finding exemplars; non-trivial = at least one operation "
                 "before the final save; distinct = different (source, step list)")
     k = next((i for i, c in enumerate(cases) if c["kind"] == "tlc-path"), 0)
